@@ -180,7 +180,7 @@ def gen_cases(ctx, tier):
     rng = ctx.rng
     cases = [{"p": p} for p in CORPUS] + [{"p": p} for p in small_programs()]
     mult = 1 if tier == "quick" else 15
-    for mode, n, depth in (("free", 500, 3), ("free", 200, 4), ("flagged", 250, 3), ("own", 500, 3), ("own", 150, 4)):
+    for mode, n, depth in (("free", 300, 3), ("free", 80, 4), ("flagged", 100, 3), ("own", 250, 3), ("own", 70, 4)):
         for _ in range(n * mult):
             cases.append({"p": G(rng, mode).program(depth), "mode": mode})
     return cases
